@@ -255,6 +255,20 @@ theorem C05_optional_omission (pvs : List (Str × Str)) (items : List Seg) :
     (formatSegs pvs items).1 = true ↔ ∀ pv ∈ segParts pvs items, isZeroVal pv.1 pv.2 = true := by
   exact formatSegs_zero pvs items
 
+/-- WHAT "zero" MEANS in the regenerated table (`version.PART_ZERO_VALUES`): exactly the parts the README lets
+    vanish — MAJOR MINOR PATCH NUM INC0 at the number 0, TAG at `final`, PYTAG at the empty string — and nothing
+    else: INC1 (which starts at 1), BUILD and the calendar parts never count as zero, so a group holding one of
+    them is never omitted.  An edited table (an entry added, a value changed, an entry dropped) breaks this. -/
+theorem C05_zero_values :
+    Gen.partZeroValues.all (fun pz =>
+      (["MAJOR", "MINOR", "PATCH", "NUM", "INC0"].map String.toList).contains pz.1 && pz.2 == "0".toList ||
+      pz.1 == "TAG".toList && pz.2 == "final".toList || pz.1 == "PYTAG".toList && pz.2 == []) = true ∧
+    (["MAJOR", "MINOR", "PATCH", "NUM", "INC0", "TAG", "PYTAG"].map String.toList).all
+      (fun n => (lookup n Gen.partZeroValues).isSome) = true ∧
+    isZeroVal "INC1".toList "1".toList = false ∧ isZeroVal "INC1".toList "0".toList = false ∧
+    isZeroVal "BUILD".toList "0".toList = false ∧ isZeroVal "BLD".toList "0".toList = false := by
+  refine ⟨?_, ?_, ?_, ?_, ?_, ?_⟩ <;> decide
+
 theorem C05_omitted_renders_empty (pvs : List (Str × Str)) (items : List Seg)
     (h : (formatSegs pvs items).1 = true) : (formatSeg pvs (.grp items)).result = [] := by
   simp only [formatSeg, h, ↓reduceIte]
